@@ -8,6 +8,8 @@ CONSTANTS
   SuiteRewrites = {"empty", "unknown", "unknown_first", "odd", "ecdhe_only", "scsv"}
   Scripts = {"none", "omit_cv", "dup_cv", "dup_cke", "noccs_plainfin", "noccs_plainfin_hreq", "fin_before_ccs", "ccs_twice", "appdata_before_fin", "fin_trailing1", "fin_trailing20", "fin_short"}
   Policies = {"none", "request", "requireany", "verifyifgiven", "requireandverify"}
+  ExtTypes = {0, 5, 10, 11, 13, 16, 18, 23, 35, 13172, 65281, 64250}
+  ExtShapes = {"nodata", "list0_8", "list0_16", "item0", "item0_16", "over", "under", "ones", "twice"}
   CutMax = 100
   SelfMals = {"hi01", "hi80", "hiff", "lo+1", "lo-1", "zero"}
   ClientAuth = {TRUE, FALSE}
